@@ -2,4 +2,13 @@
 
 package publicip
 
+import "net/http"
+
 func VerifCheckers() []string { return append([]string{}, ipCheckers...) }
+
+// VerifNewFetcher builds the real fetcher around a caller-supplied HTTP client.
+func VerifNewFetcher(client *http.Client) *PublicIPFetcher {
+	f := NewPublicIPFetcher()
+	f.client = client
+	return f
+}
